@@ -690,6 +690,7 @@ Proof.
     assert (E1 : st1 = fix_temporaries st) by (apply Hst1; simpl; exact Hm). subst st1.
     destruct r1 as [[]|e|h|]; cbn [bindR]; try (spl; eauto; try (intros; discriminate); tauto).
     destruct (Hok eq_refl) as (Hi0 & d & els & Hl & Hlt). unfold retR.
+    change (optr (fix_temporaries st) (top_obj (fix_temporaries st))) with p.
     set (st2 := set_loc (fix_temporaries st) (LArr n (Z.to_nat i)) p).
     assert (Hst2 : st2 = set_arrs (fix_temporaries st) (upsert n (d, update_nth (Z.to_nat i) p els) (arrs (fix_temporaries st)))).
     { unfold st2. simpl. simpl in Hl. rewrite Hl. reflexivity. }
